@@ -54,6 +54,29 @@ def eval_program(arg) -> dict:
             if not prog.enc.get('multiclient'):
                 prog.enc['provides'] = {'sts': 'NONE', 'mts': 'ALL'}
             out['counts']['programs_with_a_port_named_like_a_shell_part'] = 1
+    if stream % 4 in (2, 3):
+        # an event parameter named like a parameter of the shell's own constructor (`locator`
+        # with imported, `prototypeLocator` with created facilities, `encapsuleeInstanceName`):
+        # ordinary identifiers for a Dezyne model
+        word = ['locator', 'prototypeLocator', 'encapsuleeInstanceName'][
+            0 if prog.enc['origin'] == 'import' else 1 + (stream // 4) % 2]
+        mcp = (prog.enc.get('multiclient') or {}).get('port')
+        done = False
+        for pname in prog.info['requires'] + prog.info['provides']:
+            if pname == mcp or done:
+                continue
+            itf = prog.gen.interface_by_fqn(prog.info['ports'][pname]['itf'])
+            for ev in itf.events:
+                if ev.formals and all(f.name != word for f in ev.formals):
+                    ev.formals[0].name = word
+                    done = True
+                    break
+        if done:
+            prog.enc['requires'] = {'sts': 'NONE', 'mts': 'ALL'}
+            if not prog.enc.get('multiclient'):
+                prog.enc['provides'] = {'sts': 'NONE', 'mts': 'ALL'}
+            case['doc'] = M.to_json(prog.gen.model)
+            out['counts']['programs_with_a_parameter_named_like_a_constructor_parameter'] = 1
     case['cfg'] = prog.enc
     prog.release = stream % 8 < 4      # both origins in both build configurations
     flavor = 'asan'
@@ -90,7 +113,7 @@ def main(tier: str) -> int:
         raise common.Inconclusive('g++ / clang++-14 not available')
     run = common.Run(PROP, tier)
     n = 8 if tier == 'quick' else 152
-    run.require('programs_of_big_size', 'constructions', 'constructed', 'refused', 'identity_comparisons', 'origin_create',
+    run.require('programs_of_big_size', 'programs_with_a_parameter_named_like_a_constructor_parameter', 'constructions', 'constructed', 'refused', 'identity_comparisons', 'origin_create',
                 'origin_import', 'posts_seen', 'programs_built_as_release',
                 'programs_built_as_development', 'programs_with_a_port_named_like_a_shell_part')
     scratch = run.scratch()
